@@ -14,6 +14,15 @@ unit(P, target=F.OF01 + "Connection.read", name="controller_read_frames", timeou
 unit(P, target=F.SW + "OFConnection.read", name="switch_read_frames", timeout_s=600)(F.switch_read_frames)
 unit(P, target="pox.lib.ioworker:IOWorker receive buffer", name="ioworker_receive_buffer")(F.ioworker_receive_buffer)
 
+# the decoder family contract the read units call ("returns offset + declared length or raises") is discharged per message
+# class in c10_unpack_total; C02 depends on it (a decoder returning another offset would merge or split neighbours), so the
+# same units are obligations of C02 too
+import contracts.c10_unpack_total as U   # noqa
+from pyvc.api import UNITS as _UNITS
+for _u in list(_UNITS.get("C10", [])):
+  if _u.name.startswith("arbitrary_bytes_"):
+    unit(P, target=_u.target, name="decoder_" + _u.name[len("arbitrary_bytes_"):] + "_consumes_the_declared_length")(_u.fn)
+
 
 def next_cut(S, c):
   """frame boundary after c, or c itself when no complete frame starts at c"""
